@@ -146,7 +146,11 @@ def make_forest(r, root):
         t = "ch%d" % (i + 1) if i < 42 else os.path.relpath(r.choice(dirs), cd)
         os.symlink(t, q)
         entries[q] = ("l", t)
-    return dirs, links, entries, cd
+    # a relative link that leads to /proc/self (a spelling of it that does not start with /proc/self)
+    lps = root + "/lps"
+    os.symlink("../" * (root.count("/") - 1) + "../proc/self", lps)
+    entries[lps] = ("l", "../" * (root.count("/") - 1) + "../proc/self")
+    return dirs, links, entries, cd, lps
 
 
 def gen_path(r, root, dirs, entries, cd):
@@ -180,7 +184,7 @@ def run(c):
     reachable = [x for x in ABI if x[1] is not None]
     for fi in range(nforest):
         root = "%s/f%d" % (scratch, fi)
-        dirs, links, entries, cd = make_forest(r, root)
+        dirs, links, entries, cd, lps = make_forest(r, root)
         names = Names()
         lines = []
         cwd = r.choice(dirs)
@@ -213,7 +217,10 @@ def run(c):
                         cwd = cd
                 elif kind < 0.12:
                     p = r.choice(["/proc/self/cwd/", "/proc/thread-self/cwd/", "/proc/self/root" + root + "/", "/proc/thread-self/root" + root + "/", "/proc/self/root" + root + "/",
-                                  "/proc/self/fd/%d/" % 0]) + r.choice(["a", "f", "l0", "..", "b/../a", "l1/../c", "c/l2"])
+                                  "/proc/self/fd/%d/" % 0,
+                                  # the same entries reached by other spellings: through "..", ".", a doubled slash, a relative link of the forest
+                                  "/proc/../proc/self/cwd/", "//proc/self/cwd/", "/proc/./self/cwd/", "/proc/self/../self/cwd/", "/proc//thread-self/./cwd/",
+                                  "/usr/../proc/self/cwd/", lps + "/cwd/", lps + "/root" + root + "/"]) + r.choice(["a", "f", "l0", "..", "b/../a", "l1/../c", "c/l2"])
                 else:
                     pre, parts, start = gen_path(r, root, dirs, entries, cd)
                     p = "/".join(parts)
@@ -241,7 +248,7 @@ def run(c):
                     else:
                         dspec, base = "num:%d" % r.choice([999, 0xffffffff, 1 << 31]), None
                     args[dpos] = "d:" + dspec
-                args[ppos] = "p:" + p
+                args[ppos] = ("q:" if p != "-" and len(p) > 1 and r.random() < 0.25 else "p:") + p      # q: the string lies across a page boundary
                 checks.append({"dspec": dspec, "base": base, "path": "" if p == "-" else p, "follow_rule": f})
             # flags
             flags = None
@@ -330,9 +337,9 @@ def run(c):
                     if op["name"] in ("open", "openat") and v & O_CREAT and v & O_EXCL:
                         follow = False
                 want = tf if follow else tn
-                isproc = ck["path"].startswith("/proc/")
+                isproc = ck["path"].startswith("/proc/") or "lps" in ck["path"].split("/") or "/proc/" in ck["path"]
                 # aliases through the root link are inside the model (the /proc entries of the tracee are part of the forest)
-                rootalias = ck["path"].startswith("/proc/self/root/") or ck["path"].startswith("/proc/thread-self/root/")
+                rootalias = ck["path"].startswith("/proc/self/root/") or ck["path"].startswith("/proc/thread-self/root/") or "/lps/root/" in ck["path"]
                 if klass == "syscall":
                     blocked = True
                     if not (shown == "procfs-path" and (isproc or "/proc/" in (tf + tn))):
